@@ -123,6 +123,18 @@ func (n *Node) usesKey() bool {
 	return false
 }
 
+func (n *Node) usesGroup() bool {
+	if n.K == "grp" {
+		return true
+	}
+	for _, a := range n.A {
+		if a.usesGroup() {
+			return true
+		}
+	}
+	return false
+}
+
 func (n *Node) usesNegativeGroup() bool {
 	if n.K == "grp" && n.I < 0 {
 		return true
